@@ -180,6 +180,9 @@ CONTEXTS = [
     ("if", "if True:\n    if 1 == 1:\n        _r = {stmt}"),
     ("decorated", "@deco\ndef _ctx{n}():\n    x = 1\n    return {stmt}\n_r = _ctx{n}()"),
     ("listcomp", "_r = [{stmt} for _ in range(1)][0]"),
+    # the call sits on the line of a one-line def (repaired defect: the enclosing function was
+    # recorded instead of the lambda); used for single-line layouts only
+    ("def1", "def _ctx{n}(): return {stmt}\n_r = _ctx{n}()"),
 ]
 
 
@@ -227,7 +230,11 @@ def run(t):
     n = 0
     for code, intended, must, label in lays:
         ctxs = CONTEXTS if not quick else [CONTEXTS[n % len(CONTEXTS)], CONTEXTS[(n + 3) % len(CONTEXTS)]]
+        if quick and "\n" not in code and label in ("one-per-line", "line:methods-differ", "line:args-differ"):
+            ctxs = ctxs + [CONTEXTS[-1]]
         for cname, ctmpl in ctxs:
+            if cname == "def1" and "\n" in code:
+                continue
             if "  #" in code and cname == "listcomp":
                 continue       # a trailing comment cannot sit inside a one-line comprehension
             txt = render(n, code, ctmpl)
@@ -241,6 +248,13 @@ def run(t):
         parts.append(srcgen.case_block(n, f"ds.Select({fname})"))
         index.append((n, f"ds.Select({fname})", [("Select", want)], True, "one-line-def"))
         n += 1
+    # a function behind a functools.wraps decorator computes something else than its own source
+    # says: it may be refused, the undecorated body must never be recorded (repaired defect)
+    parts.append("import functools\ndef _dbl(f):\n    @functools.wraps(f)\n    def w(e):\n        return 2 * f(e)\n    return w\n"
+                 "@_dbl\ndef f3(e): return e.a + 3\n")
+    parts.append(srcgen.case_block(n, "ds.Select(f3)"))
+    index.append((n, "ds.Select(f3)", [("Select", "lambda e: 2 * (e.a + 3)")], False, "wrapped-function"))
+    n += 1
     src = "".join(parts)
     try:
         compile(src, "<gen>", "exec")
